@@ -239,6 +239,89 @@ def foldNums (f : Num → Num → Num) : Num → List Val → Option Num
     | some n => foldNums f (f acc n) vs
     | none => none
 
+/-! ### coroutines -/
+
+/-- run (re-execute) the body of coroutine `co` with the log `log`; classify how it stops and update its state -/
+def coRun (r : Rec) (co : Nat) (c : CoState) (first : List Val) (log : List LogEntry) : M (Bool × List Val) := do
+  coEnter co c first log
+  let ex ← tryCo (r.call ⟨[0], none⟩ c.fn first)
+  let s2 ← getS
+  if !s2.replay.isEmpty then divergence else
+  match ex with
+  | .ret vs => do
+    coLeave co fun c l => { c with dead := true, log := l }
+    pure (true, vs)
+  | .err v => do
+    coLeave co fun c l => { c with dead := true, err := some v, log := l }
+    pure (false, [v])
+  | .yielded vs => do
+    coLeave co fun c l => { c with log := l }
+    pure (true, vs)
+  | .closed => do
+    coLeave co fun c l => { c with dead := true, log := l }
+    pure (true, [])
+
+/-- `coroutine.resume(co, args…)` as (status, values) -/
+def resumeCo (r : Rec) (co : Nat) (args : List Val) : M (Bool × List Val) := do
+  match ← nextLog with
+  | some (.resumed ok vs) => pure (ok, vs)
+  | some _ => divergence
+  | none =>
+    let s ← getS
+    let c := s.cos.getD co default
+    let res ← (match s.coStatus co with
+      | .suspended =>
+        if c.started then coRun r co c c.args (c.log ++ [.yieldRet args])
+        else coRun r co c args []
+      | .dead => pure (false, [Val.ofString "!codead"])
+      | _ => pure (false, [Val.ofString "!conotsuspended"]))
+    recordM (.resumed res.1 res.2)
+    pure res
+
+/-- `coroutine.close(co)` as (status, values) -/
+def closeCo (r : Rec) (dyn : Dyn) (co : Nat) : M (Bool × List Val) := do
+  match ← nextLog with
+  | some (.resumed ok vs) => pure (ok, vs)
+  | some _ => divergence
+  | none =>
+    let s ← getS
+    let c := s.cos.getD co default
+    match s.coStatus co with
+    | .suspended => do
+      let res ← (if c.started then coRun r co c c.args (c.log ++ [.closeSignal])
+        else do
+          updCo co fun c => { c with dead := true }
+          pure (true, []))
+      recordM (.resumed res.1 res.2)
+      pure res
+    | .dead => do
+      let res : Bool × List Val := match c.err with
+        | some v => (false, [v])
+        | none => (true, [])
+      -- the error is reported once: afterwards the coroutine is simply dead
+      updCo co fun c => { c with err := none }
+      recordM (.resumed res.1 res.2)
+      pure res
+    | _ => rtError r dyn "coclose"
+
+def yieldCo (r : Rec) (dyn : Dyn) (vs : List Val) : M (List Val) := do
+  let s ← getS
+  if s.costack.isEmpty then rtError r dyn "yieldmain" else
+  match ← nextLog with
+  | none => throw (.yield vs)
+  | some (.yieldRet rs) => pure rs
+  | some .closeSignal => throw .closing
+  | some _ => divergence
+
+def isFunction : Val → Bool
+  | .func _ => true
+  | .builtin _ => true
+  | .wrapfn _ => true
+  | _ => false
+
+def newCo (f : Val) : M Nat :=
+  allocCo { fn := f, args := [], started := false, dead := false, err := none, log := [] }
+
 def builtinCall (r : Rec) (dyn : Dyn) (b : Builtin) (args : List Val) : M (List Val) :=
   let a0 := args.headD .nil
   let a1 := args.tail.headD .nil
@@ -475,6 +558,32 @@ def builtinCall (r : Rec) (dyn : Dyn) (b : Builtin) (args : List Val) : M (List 
         | none => rtError r dyn "badarg"
       | none => rtError r dyn "badarg"
     | _ => rtError r dyn "badarg"
+  | .coCreate =>
+    if isFunction a0 then (do let a ← newCo a0; pure [.thread a]) else rtError r dyn "badarg"
+  | .coWrap =>
+    if isFunction a0 then (do let a ← newCo a0; pure [.wrapfn a]) else rtError r dyn "badarg"
+  | .coResume => match a0 with
+    | .thread co => do
+      let res ← resumeCo r co args.tail
+      pure (.bool res.1 :: res.2)
+    | _ => rtError r dyn "badarg"
+  | .coYield => yieldCo r dyn args
+  | .coStatus => match a0 with
+    | .thread co => do
+      let st ← readCoStatus co
+      pure [.ofString st.name]
+    | _ => rtError r dyn "badarg"
+  | .coClose => match a0 with
+    | .thread co => do
+      let res ← closeCo r dyn co
+      pure (.bool res.1 :: res.2)
+    | _ => rtError r dyn "badarg"
+  | .coIsyieldable => do
+    let s ← getS
+    pure [.bool !s.costack.isEmpty]
+  | .coRunning => do
+    let s ← getS
+    pure [.thread (s.costack.headD 0), .bool s.costack.isEmpty]
 
 /-! ### one unfolding of each judgement -/
 
@@ -667,14 +776,18 @@ def stepStmts (r : Rec) (ctx : Ctx) (whole : Block) (tail : Option (Nat × Expr)
     | some tv => do
       let h ← metaOf tv "__close"
       if h = .nil then rtError r ctxl.here "noclose" else
-      let res ← tryLua (r.stmts { ctx' with inTbc := true } whole tail base (i + 1) (i + 1))
+      let res ← tryTbc (r.stmts { ctx' with inTbc := true } whole tail base (i + 1) (i + 1))
       match res with
       | .ok sig => do
         closeVal r ctxl.here tv .nil
         pure sig
-      | .error (ev, handled) => do
+      | .error (.lua ev handled) => do
         closeVal r ctxl.here tv ev
         throw (.lua ev handled)
+      | .error .closing => do
+        -- the suspended coroutine this scope belongs to is being closed: as on a normal exit
+        closeVal r ctxl.here tv .nil
+        throw .closing
   | some (.localfn _ name fb) => do
     let c ← allocCell .nil
     let env := (name, c) :: ctx.env
@@ -709,6 +822,10 @@ def stepCall (r : Rec) (dyn : Dyn) (f : Val) (args : List Val) : M (List Val) :=
     | .normal => pure []
     | _ => unsupported "break or goto leaving a function body"
   | .builtin b => builtinCall r dyn b args
+  | .wrapfn co => do
+    -- a wrapped coroutine: resume it; an error inside propagates to the caller
+    let res ← resumeCo r co args
+    if res.1 then pure res.2 else raise r dyn (res.2.headD .nil)
   | _ => do
     let h ← metaOf f "__call"
     match f with
